@@ -224,7 +224,7 @@ def _adversarial(ctx):
             check_song(ctx, ["Resolution = 192", '%s = "%s"' % (f, v)], "value of %s is the line of %s" % (f, g))
             if g != "Resolution":
                 check_song(ctx, ['%s = "%s"' % (f, v), "Resolution = 192", canon(g, 5)], "value of %s is the line of %s, followed by the real line" % (f, g))
-        for v in (" lead", "trail ", " both ", '""', '"q"', 'a""b', "x = y", f + " = z", "日本 ♪", "tab\tin"):
+        for v in (" lead", "trail ", " both ", '""', '"q"', 'a""b', "x = y", f + " = z", "日本 ♪", "tab\tin", "a\ufeffb", "\ufeff", "\ufeffx\ufeff", "x\u00a0y", "\u200b", "日\u3000本", "e\u0301", "\U0001f3b8"):
             check_song(ctx, ["Resolution = 192", '%s = "%s"' % (f, v)], "adversarial value %r of %s" % (v, f))
     for f in INT_FIELDS:
         for v in ("0", "7", "007", "99999999", "123456789012345678901234"):
